@@ -150,6 +150,13 @@ def run(ctx):
             elif r_ < 0.65:
                 x = gen.rand_cat(rng, lang, depth=2)
                 y = gen.rand_cat(rng, lang, depth=2)
+            elif r_ < 0.8 and lang == 'ja':
+                # a rule schema instantiated with random sub-categories whose two occurrences of the shared part differ in feature values
+                # (one variable feature meeting several different values, clashes included)
+                import importlib
+                c04 = importlib.import_module('props.c04')
+                x, y = c04.instantiate(rng, rng.choice(c04.PATTERNS), modifier=rng.random() < 0.3)
+                ctx.count('ja:instantiated_schema_pairs')
             if not (gen.wf_py(x) and gen.wf_py(y) and one_system(x, system) and one_system(y, system)):
                 continue
             sx, sy = snapshot(x), snapshot(y)
